@@ -750,6 +750,52 @@ func fsShortWrite(h *fsHarness, p *prng, rounds int) {
 	}
 }
 
+// fsByteForByte: what is acknowledged is in the files byte for byte -- also when the stored bytes are not
+// one tidy line (several newlines at the end, none at all, newlines in the middle, empty)
+func fsByteForByte(h *fsHarness, p *prng, rounds int) {
+	for r := 0; r < rounds; r++ {
+		h.st.Cases++
+		dir := filepath.Join(h.base, fmt.Sprintf("raw%d", r))
+		os.RemoveAll(dir)
+		sink := &eventlogger.FileSink{Path: dir, FileName: "ev.log", Format: "raw"}
+		if r%2 == 1 {
+			sink.MaxBytes, sink.TimestampOnlyOnRotate = 40, true
+		}
+		var want []byte
+		tails := []string{"\n", "\n\n", "\n\n\n\n", "", "\n \n", "\r\n\n"}
+		for id := 1; id <= 8; id++ {
+			b := []byte(fmt.Sprintf("e%d:%s", id, strings.Repeat("x", p.intn(12))) + tails[p.intn(len(tails))])
+			if p.chance(1, 8) {
+				b = []byte("\n\n")
+			}
+			if _, err := sink.Process(context.Background(), &eventlogger.Event{Type: "t", Formatted: map[string][]byte{"raw": b}}); err == nil {
+				want = append(want, b...)
+			}
+		}
+		ents, _ := os.ReadDir(dir)
+		var names []string
+		for _, e := range ents {
+			if e.Name() != "ev.log" {
+				names = append(names, e.Name())
+			}
+		}
+		sort.Strings(names)
+		names = append(names, "ev.log")
+		var got []byte
+		for _, n := range names {
+			b, _ := os.ReadFile(filepath.Join(dir, n))
+			got = append(got, b...)
+		}
+		if string(got) != string(want) {
+			h.oracle("C08 the files, read oldest to newest, hold %d bytes; the acknowledged events are %d bytes: not byte for byte (%.60q vs %.60q)", len(got), len(want), got, want)
+			h.oracle("C13 FileSink reported success but what it wrote is not exactly the stored bytes (%d bytes written for %d stored)", len(got), len(want))
+		}
+		h.st.hit("byte-for-byte")
+		h.st.Ops += 8
+		os.RemoveAll(dir)
+	}
+}
+
 // fsWriteFault: the sink's file is a symbolic link to /dev/full: open, stat and close work, every
 // write(2) fails. Process must not report success for an event that is in no file; once the fault is
 // gone (link removed, Reopen) the files hold exactly the acknowledged events.
@@ -975,6 +1021,7 @@ func filesinkMain(args []string) {
 		fsConcurrent(h, p, *conc)
 		fsKill(h, p, *kill)
 		fsDirOnDemand(h, p, 6)
+		fsByteForByte(h, p, 4)
 		fsWriteFault(h, p, 6)
 		fsShortWrite(h, p, 4)
 	}
